@@ -125,11 +125,40 @@ class AstToSqlVisitor(visitor.NodeVisitor):
 
     def visit_BinOp(self, node: ast.BinOp) -> str:
         ":meta private:"
-        left = self.visit(node.left)
-        right = self.visit(node.right)
+        left = self._visit_binop_operand(node.left, node.op, is_right_operand=False)
+        right = self._visit_binop_operand(node.right, node.op, is_right_operand=True)
         op = self.visit(node.op)
 
         return f"{left} {op} {right}"
+
+    def _visit_binop_operand(
+        self, operand: ast._Node, parent_op: ast._Node, is_right_operand: bool
+    ) -> str:
+        """
+        Visit an operand of an arithmetic operator and wrap it in parentheses if
+        SQL's operator precedence would otherwise regroup the expression.
+
+        :meta private:
+        """
+        res = self.visit(operand)
+
+        def precedence(op: ast._Node) -> int:
+            return 2 if isinstance(op, (ast.Mult, ast.Div, ast.Mod)) else 1
+
+        needs_parens = False
+        if isinstance(operand, ast.BinOp):
+            needs_parens = precedence(operand.op) < precedence(parent_op) or (
+                is_right_operand and precedence(operand.op) == precedence(parent_op)
+            )
+        elif isinstance(operand, (ast.Compare, ast.BoolOp)):
+            needs_parens = True
+        elif isinstance(operand, ast.UnaryOp) and isinstance(operand.op, ast.Not):
+            needs_parens = True
+        elif isinstance(operand, ast.Call) and operand.func.name.lower() == "indexof":
+            # indexof is rendered as 'POSITION(..) - 1', an arithmetic expression:
+            needs_parens = precedence(parent_op) == 2 or is_right_operand
+
+        return f"({res})" if needs_parens else res
 
     def visit_Eq(self, node: ast.Eq) -> str:
         ":meta private:"
